@@ -163,6 +163,53 @@ theorem reopen_unobservable_of_coherent {e : Env} (hco : CacheCoherent e) {h h' 
   obtain ⟨h1, _, _, h2⟩ := reopen_unobservable_upto hc hg hi h0
   exact ⟨h1.symm, h2.1.symm, h2.2.1.symm, h2.2.2.symm⟩
 
+theorem ReachableP.step {P : Op → Prop} {e : Env} {s : St} (hr : ReachableP P e s) (op : Op) (hp : P op) :
+    ReachableP P e (step e op s).2 := by
+  obtain ⟨h, hh, rfl⟩ := hr
+  refine ⟨h ++ [op], ?_, ?_⟩
+  · intro o ho
+    rcases List.mem_append.mp ho with ho | ho
+    · exact hh o ho
+    · rw [List.mem_singleton.mp ho]; exact hp
+  · rw [run_append]; rfl
+
+/-- **C09 (b), restricted alphabet.** The same statement for histories over any set `P` of
+operations that contains `.reopen`, with coherence demanded only in states reachable by such
+histories (`CacheCoherentOn P e`). This is the form that is discharged from the C06 invariant
+(`Props/C09Coherent.lean`: `P` = all operations except a move to an empty node name, which
+HDF5 cannot express). -/
+theorem reopen_unobservable_of_coherent_on {P : Op → Prop} {e : Env} (hPr : P .reopen)
+    (hco : CacheCoherentOn P e) {h h' : List Op} (hi : Ins isReopen h h') (hP : ∀ op ∈ h, P op) :
+    outcomes isReopen e initSt h' = outcomes isReopen e initSt h ∧
+    (run e initSt h').raw = (run e initSt h).raw ∧
+    (run e initSt h').next = (run e initSt h).next ∧
+    CachesEqv (run e initSt h').c (run e initSt h).c := by
+  have main : ∀ {h h' : List Op}, Ins isReopen h h' → (∀ op ∈ h, P op) → ∀ {s s' : St},
+      ReachableP P e s → ReachableP P e s' → ObsEq s s' →
+      outcomes isReopen e s h = outcomes isReopen e s' h' ∧ ObsEq (run e s h) (run e s' h') := by
+    intro h h' hi
+    induction hi with
+    | nil => intro _ s s' _ _ ho; exact ⟨rfl, ho⟩
+    | keep op _ ih =>
+      intro hP s s' hr hr' ho
+      have hp : P op := hP op (List.mem_cons_self ..)
+      obtain ⟨h1, h2⟩ := obsEq_congruent e op s s' ho
+      obtain ⟨i1, i2⟩ := ih (fun o ho => hP o (List.mem_cons_of_mem _ ho)) (ReachableP.step hr op hp) (ReachableP.step hr' op hp) h2
+      simp only [outcomes, run]
+      exact ⟨by rw [i1, h1], i2⟩
+    | skip op hp _ ih =>
+      intro hP s s' hr hr' ho
+      have hop : op = .reopen := by
+        cases op <;> first | rfl | exact absurd hp (by simp [isReopen])
+      subst hop
+      have ho' : ObsEq s (step e .reopen s').2 := ⟨ho.1, ho.2.1, ho.2.2.trans (hco s' hr').symm⟩
+      obtain ⟨i1, i2⟩ := ih hP hr (ReachableP.step hr' .reopen hPr) ho'
+      simp only [outcomes, run, isReopen, if_true]
+      exact ⟨i1, i2⟩
+  have h0 : ReachableP P e initSt := ⟨[], fun _ h => absurd h (List.not_mem_nil), rfl⟩
+  obtain ⟨h1, h2⟩ := main hi hP h0 h0 (ObsEq.refl _)
+  exact ⟨h1.symm, h2.1.symm, h2.2.1.symm, h2.2.2.symm⟩
+
 /-- caches that agree literally except for `used` are equivalent when no package provides
 anything (helper for the example below) -/
 theorem cachesEqv_of_fields {c c' : Caches} (h1 : c.tocPath = c'.tocPath) (h2 : c.parents = c'.parents)
